@@ -93,4 +93,15 @@ struct Asin {
     }
 };
 
-}} // namespace
+}
+
+// tolerance compare that also books the error/tolerance ratio of the oracle into decade buckets (evidence for the calibration of tau)
+inline void close_booked(Ctx &ctx, const char *oracle, double a, double b, double scale, double tau, const std::function<std::string()> &where) {
+    double before = ctx.max_ratio; ctx.max_ratio = 0;
+    try { ctx.close(oracle, a, b, scale, tau, where); } catch (...) { ctx.max_ratio = std::max(before, ctx.max_ratio); throw; }
+    double r = ctx.max_ratio; ctx.max_ratio = std::max(before, r);
+    if (r >= 1e-3 && getenv("VF_DEBUG_RATIO")) fprintf(stderr, "RATIO %g %s: %s\n", r, oracle, where().c_str());   // DEV ONLY
+    if (r >= 1e-3) ctx.count(std::string("ratio>=") + (r >= 1e-1 ? "1e-1" : r >= 1e-2 ? "1e-2" : "1e-3") + ":" + oracle);
+}
+
+} // namespace
